@@ -324,6 +324,23 @@ class TaintInterp:
             for _ in range(3):
                 self.assign(st.target, el, env, pc, fi)
                 self.block(st.body, env, fr, pc | ot)
+            # for x in d.values(): x.sort()   -- every element of the container is reordered in place
+            if isinstance(st.target, ast.Name) and st.body and all(
+                    isinstance(b_, ast.Expr) and isinstance(b_.value, ast.Call) and isinstance(b_.value.func, ast.Attribute) and b_.value.func.attr in ("sort", "reverse")
+                    and isinstance(b_.value.func.value, ast.Name) and b_.value.func.value.id == st.target.id for b_ in st.body):
+                itx = st.iter
+                cname = None
+                if isinstance(itx, ast.Call) and isinstance(itx.func, ast.Attribute) and itx.func.attr == "values" and isinstance(itx.func.value, ast.Name) and not itx.args:
+                    cname = itx.func.value.id
+                elif isinstance(itx, ast.Name):
+                    cname = itx.id
+                cont = env.get(cname) if cname else None
+                newel = env.get(st.target.id)
+                if cont is not None and newel is not None:
+                    if cont.kind == "map":
+                        env[cname] = V("map", cont.t, newel, cont.ot, cont.oid, x=cont.x)
+                    elif cont.kind == "seq":
+                        env[cname] = seq(newel, cont.ot, cont.oid, cont.t)
             self.block(st.orelse, env, fr, pc)
             return False
         if isinstance(st, ast.While):
@@ -634,6 +651,20 @@ class TaintInterp:
                 x, y = self._strip_orientation(env[l], env[r])
                 j = join(x, y)
                 return tup([j, j])
+        if isinstance(e, ast.IfExp) and isinstance(e.test, ast.Compare) and len(e.test.ops) == 1 and isinstance(e.test.ops[0], (ast.Lt, ast.LtE, ast.Gt, ast.GtE)) \
+                and isinstance(e.test.left, ast.Name) and isinstance(e.test.comparators[0], ast.Name) \
+                and isinstance(e.body, ast.Call) and isinstance(e.orelse, ast.Call) and norm(e.body.func) == norm(e.orelse.func) \
+                and len(e.body.args) == 2 and len(e.orelse.args) == 2 and not e.body.keywords and not e.orelse.keywords:
+            # f(b, a) if b < a else f(a, b): the callee always receives the pair in value order
+            l, r = e.test.left.id, e.test.comparators[0].id
+            b = [x.id if isinstance(x, ast.Name) else None for x in e.body.args]
+            o = [x.id if isinstance(x, ast.Name) else None for x in e.orelse.args]
+            if {tuple(b), tuple(o)} == {(l, r), (r, l)} and l != r and l in env and r in env:
+                x, y = self._strip_orientation(env[l], env[r])
+                j = join(x, y)
+                env2 = dict(env)
+                env2[l], env2[r] = j, j
+                return self.ev(e.body, env2, pc, fi)
         if isinstance(e, ast.Tuple) and len(e.elts) == 2 and all(isinstance(x, ast.Call) and isinstance(x.func, ast.Name) and x.func.id in ("min", "max") and len(x.args) == 2
                                                                   and not x.keywords and all(isinstance(a, ast.Name) for a in x.args) for x in e.elts):
             f0, f1 = e.elts[0].func.id, e.elts[1].func.id
